@@ -240,11 +240,14 @@ void nmc_enumerate(const nmc::Tier& t, const nmc::Sink& emit) {
             for (auto& ls : pat) for (auto& rs : pat) if (std::max(ls[0], rs[0]) == s[0] && std::max(ls[1], rs[1]) == s[1])   // result shape == s: each pair appears under exactly one s
               for (long ll = 0; ll <= 1; ll++) for (long rl = 0; rl <= 1; rl++)
                 for (long op = 0; op < r12::B_COUNT; op++) put(Case("bin", {{op, dt, ll, rl}, ls, rs}));
+            // operands of DIFFERENT rank ((r,c) with (c)): no SIMD kernel handles them - the evaluation must still equal the scalar one (found unwritten on the pinned tree)
+            for (long op = 0; op < r12::B_COUNT; op++) { put(Case("bin", {{op, dt, 0, 0}, s, {s[1]}})); put(Case("bin", {{op, dt, 0, 0}, {s[1]}, s})); }
         });
         // n-d same shape
         for (auto& s : ND) if (s.size() == 3) {
             for (long lay = 0; lay <= 1; lay++) for (long op = 0; op < r12::U_COUNT; op++) if (unary_available(op)) put(Case("un", {{op, dt, lay}, s}));
             for (long ll = 0; ll <= 1; ll++) for (long rl = 0; rl <= 1; rl++) for (long op = 0; op < r12::B_COUNT; op++) put(Case("bin", {{op, dt, ll, rl}, s, s}));
+            for (long op = 0; op < r12::B_COUNT; op++) { put(Case("bin", {{op, dt, 0, 0}, s, {s[1], s[2]}})); put(Case("bin", {{op, dt, 0, 0}, {s[2]}, s})); }   // 3-d with 2-d / 1-d
         }
 #endif
 #ifdef C12_PART_OUTER
